@@ -19,4 +19,28 @@ theorem nothing_eq_nothing : cmpData .eq .nothing .nothing = true := rfl
 theorem nothing_ne_value (v : Json) : cmpData .eq .nothing (.value v) = false := rfl
 theorem lt_nothing (d : Data) : cmpData .lt .nothing d = false := by cases d <;> rfl
 
+/-- trichotomy on numbers: exactly one of `<`, `==`, `>` holds (exact values; ints and floats mixed) -/
+theorem num_trichotomy (a b : Num) :
+    (cmpData .lt (.value (.num a)) (.value (.num b)) = true ∧ cmpData .eq (.value (.num a)) (.value (.num b)) = false ∧ cmpData .gt (.value (.num a)) (.value (.num b)) = false) ∨
+    (cmpData .lt (.value (.num a)) (.value (.num b)) = false ∧ cmpData .eq (.value (.num a)) (.value (.num b)) = true ∧ cmpData .gt (.value (.num a)) (.value (.num b)) = false) ∨
+    (cmpData .lt (.value (.num a)) (.value (.num b)) = false ∧ cmpData .eq (.value (.num a)) (.value (.num b)) = false ∧ cmpData .gt (.value (.num a)) (.value (.num b)) = true) := by
+  simp only [cmpData, ltData, eqData, ltJson, eqJson]
+  cases a <;> cases b <;> simp only [Num.lt, Num.exactEq, decide_eq_true_eq, decide_eq_false_iff_not, beq_iff_eq, beq_eq_false_iff_ne, ne_eq] <;> omega
+
+/-- trichotomy on strings (ordered by Unicode scalar value, lexicographically) -/
+theorem str_trichotomy (a b : Str) :
+    (cmpData .lt (.value (.str a)) (.value (.str b)) = true ∧ cmpData .eq (.value (.str a)) (.value (.str b)) = false ∧ cmpData .gt (.value (.str a)) (.value (.str b)) = false) ∨
+    (cmpData .lt (.value (.str a)) (.value (.str b)) = false ∧ cmpData .eq (.value (.str a)) (.value (.str b)) = true ∧ cmpData .gt (.value (.str a)) (.value (.str b)) = false) ∨
+    (cmpData .lt (.value (.str a)) (.value (.str b)) = false ∧ cmpData .eq (.value (.str a)) (.value (.str b)) = false ∧ cmpData .gt (.value (.str a)) (.value (.str b)) = true) := by
+  simp only [cmpData, ltData, eqData, ltJson, eqJson, decide_eq_true_eq, decide_eq_false_iff_not, beq_iff_eq, beq_eq_false_iff_ne, ne_eq]
+  rcases Std.lt_trichotomy a b with h | h | h
+  · exact .inl ⟨h, fun e => by subst e; exact List.lt_irrefl _ h, List.lt_asymm h⟩
+  · subst h; exact .inr (.inl ⟨List.lt_irrefl _, rfl, List.lt_irrefl _⟩)
+  · exact .inr (.inr ⟨List.lt_asymm h, fun e => by subst e; exact List.lt_irrefl _ h, h⟩)
+
+/-- `<` never holds across types -/
+theorem lt_across_types (a b : Json) (h : ∀ x y, ¬ (a = .num x ∧ b = .num y)) (h' : ∀ x y, ¬ (a = .str x ∧ b = .str y)) :
+    cmpData .lt (.value a) (.value b) = false := by
+  cases a <;> cases b <;> simp_all [cmpData, ltData, ltJson]
+
 end JP.C04
